@@ -376,7 +376,7 @@ def gen_cells_program(cells: list) -> dict:
 
 
 def cell_names_in(line: str) -> set:
-    return set(re.findall(r"[Cc]\d{3}[A-Za-z0-9_]*", line))
+    return set(re.findall(r"[Cc]\d{3}[A-Za-z_][A-Za-z0-9_]*", line))
 
 
 def cell_typearg_names(n: int) -> set:
